@@ -6,7 +6,8 @@
 //   run   S W nvt ncells cells sel ns ncb reps pseed   -> "R nw reps {nseq seqs vec integral ncomb hooks nev events}*reps"
 //         a real (multi-threaded) DomainAssembler::assemble of an instrumented job; events = (kind thread arg):
 //         0 fence open, 1 fence wait returned, 2 fence close (only with hook H2), 3 scatter enter, 4 scatter leave,
-//         5 combine enter, 6 combine leave, 8 thread-label binding (label, first prepared cell), 9 master joined
+//         5 combine enter, 6 combine leave, 8 thread-label binding (label, first prepared cell), 9 master joined,
+//         10 fence wait begins (hook H2 only; statistics, ignored by the model)
 //   trace <run case> | <run output>                     -> "T nw reps {nseq seqs vec integral ncomb}*reps"
 //         (echo of the schedule-independent part of a recorded run; the Lean driver validates the events)
 //
@@ -186,7 +187,16 @@ static void h2_callback(int kind, const void* obj, std::size_t)
       log_event(kind, std::size_t(f - g_fence_base));
   }
   else
+  {
     perturb();
+    // "wait begins" marker (kind 10): lets the check measure which fence waits really had to block
+    if(kind == 10)
+    {
+      const ThreadFence* f = static_cast<const ThreadFence*>(obj);
+      if(g_fence_base != nullptr && f >= g_fence_base && f < g_fence_base + g_fence_count)
+        log_event(10, std::size_t(f - g_fence_base));
+    }
+  }
 }
 #endif
 
@@ -243,7 +253,7 @@ struct Runner
     for(Index rep(0); rep < reps; ++rep)
     {
       JobType job(mesh);
-      g_log.assign(8u * da.ei().size() + 64u * (da.get_num_worker_threads() + 2u) * (da.ce().size() + 2u) + 64u, Rec());
+      g_log.assign(8u * da.ei().size() + 96u * (da.get_num_worker_threads() + 2u) * (da.ce().size() + 2u) + 64u, Rec());
       g_log_pos.store(0);
       bool hooks = false;
 #ifdef FEAT_VERIF_HOOK_H2
